@@ -5,14 +5,14 @@ VARIABLE hist
 hvars == <<vars, hist>>
 H(A, lbl) == A /\ hist' = Append(hist, lbl)
 MCNext == \/ \E k \in Kinds, s \in Senders, p \in Ports : narr < MaxReads /\ H(Arrive(k, s, p), <<"Arrive", k, s, p>>)
-          \/ H(CallRead, <<"CallRead">>) \/ H(Read, <<"Read">>) \/ H(ReadClosed, <<"ReadClosed">>)
-          \/ H(ParseFail, <<"ParseFail">>) \/ H(Spawn, <<"Spawn">>)
+          \/ \E l \in Loops : \/ H(CallRead(l), <<"CallRead", l>>) \/ H(Read(l), <<"Read", l>>) \/ H(ReadClosed(l), <<"ReadClosed", l>>) \/ H(ReadErrReturn(l), <<"ReadErrReturn", l>>)
+                             \/ H(ParseFail(l), <<"ParseFail", l>>) \/ H(Spawn(l), <<"Spawn", l>>)
           \/ \E h \in 1..MaxReads : H(HandlerFinish(h), <<"Finish", h>>)
           \/ H(CloseCall, <<"Close">>)
 MCInit == Init /\ hist = <<>>
 MCSpec == MCInit /\ [][MCNext]_hvars
 \* complete behaviours are printed for replay into the real servers
-Done == pc = "returned" /\ \A h \in DOMAIN spawned : spawned[h].done
-Emit == (EmitCases /\ Done) => PrintT("CASE " \o ToJson([v4 |-> V4, steps |-> hist]))
+Done == (\A l \in Loops : pc[l] = "returned") /\ \A h \in DOMAIN spawned : spawned[h].done
+Emit == (EmitCases /\ Done) => PrintT("CASE " \o ToJson([v4 |-> V4, loops |-> Cardinality(Loops), steps |-> hist]))
 View == vars
 =============================================================================
